@@ -410,7 +410,7 @@ pub fn run(ctx: &mut Ctx) {
         "in a fatal strategy tick the engine reports the errors but not the partial output; deliveries of such a tick are reconciled against the links only".into(),
     ];
     ctx.run_regressions::<RequestDelivery>();
-    ctx.run::<RequestDelivery>(ctx.tier.pick(3_000, 60_000));
+    ctx.run::<RequestDelivery>(ctx.tier.pick(60_000, 800_000));
 }
 
 pub fn replay(ctx: &mut Ctx, doc: &Value) -> bool {
